@@ -87,11 +87,15 @@ fn run<V: Comps>(case: &Value) -> (bool, Vec<Value>) {
     // the same surface seen at another absolute distance; undone (exactly) when recording
     let zsc = case.get("zsc").and_then(|v| v.as_i64()).unwrap_or(0) as i32;
     let (zmul, zdiv) = (2f32.powi(zsc), 2f64.powi(-zsc));
+    // all attribute values times 2^asc, exactly (tiny but normal numbers whose per-pixel differences are
+    // subnormal; huge ones); undone (exactly) when recording
+    let asc = case.get("asc").and_then(|v| v.as_i64()).unwrap_or(0) as i32;
+    let (amul, adiv) = (2f32.powi(asc), 2f64.powi(-asc));
     let vs: Vec<Vertex<ScreenPt, V>> = (0..3)
         .map(|i| {
             let p = &case["v"][i];
             let z = case["Z"][i].as_i64().unwrap() as f32 / ZDEN * zmul;
-            let a: Vec<f32> = case["A"][i].as_array().unwrap().iter().map(|c| c.as_i64().unwrap() as f32).collect();
+            let a: Vec<f32> = case["A"][i].as_array().unwrap().iter().map(|c| c.as_i64().unwrap() as f32 * amul).collect();
             vertex(
                 pt3(p[0].as_i64().unwrap() as f32 / unit, p[1].as_i64().unwrap() as f32 / unit, z),
                 V::make(&a, z),
@@ -121,7 +125,7 @@ fn run<V: Comps>(case: &Value) -> (bool, Vec<Value>) {
                     let cs = f.var.comps();
                     let all = [f.pos.x(), f.pos.y(), f.pos.z()];
                     let p: Vec<Option<i64>> = vec![sc(all[0], 1024.0), sc(all[1], 1024.0), sc(all[2], 65536.0 * zdiv)];
-                    let a: Vec<Option<i64>> = cs.iter().map(|c| sc(*c, 1024.0)).collect();
+                    let a: Vec<Option<i64>> = cs.iter().map(|c| sc(*c, 1024.0 * adiv)).collect();
                     if p.iter().chain(a.iter()).all(|x| x.is_some()) {
                         json!([1, p[0], p[1], p[2], a])
                     } else {
@@ -214,8 +218,11 @@ fn emit(out: &mut dyn Write, key: String, s: i64, v: [[i64; 2]; 3], rng: &mut Rn
     let z: Vec<i64> = if !small && tyi % 5 == 3 { z.iter().map(|v| -v).collect() } else { z };
     let a = attrs(rng, n, 32);
     let zsc = [0i64, 0, -14, 0, -20, 6][(tyi / TYS.len()) % 6];
+    // (attribute scale: only together with ordinary depths; not for angles and colours, whose conversions
+    // and clamps have their own ranges)
+    let asc = if zsc == 0 && matches!(ty, "f32" | "vec2" | "vec3" | "tup") { [0i64, -126, 0, 100, -120, 0][(tyi / (6 * TYS.len())) % 6] } else { 0 };
     let skip = key.starts_with('S') as u8;
-    writeln!(out, "{}", json!({"k": key, "s": s, "v": v, "Z": z, "A": a, "ty": ty, "c05": small as u8, "zsc": zsc, "skip": skip})).unwrap();
+    writeln!(out, "{}", json!({"k": key, "s": s, "v": v, "Z": z, "A": a, "ty": ty, "c05": small as u8, "zsc": zsc, "asc": asc, "skip": skip})).unwrap();
 }
 
 pub fn gen(args: &Args, out: &mut dyn Write) {
